@@ -12,8 +12,8 @@ def _c01_case(c):
 
 CONFIG = {
     "properties_file": "Properties/C01.v",
-    "proof_files": ["Base/Prelude.v", "Proofs/CopySpec.v"],
-    "model_files": ["Generated/GC01.v", "Model/CopySpec.v", "Model/CopyTop.v"],
+    "proof_files": ["Base/Prelude.v", "Proofs/CopySpec.v", "Proofs/CopyAcct.v", "Proofs/CopyOpt.v"],
+    "model_files": ["Generated/GC01.v", "Model/CopySpec.v", "Model/CopyTop.v", "Model/CopyOpt.v"],
     "extract": "XC01.v",
     "ml_main": "c01_main.ml",
     "harness_test": True,
